@@ -273,6 +273,11 @@ FIT_KINDS = {
     'concat': ('={src}&""', lambda v: _text(v)),
     'abs': ('=ABS({src})', lambda v: abs(v)),
     'plus-scalar': ('={src}+$J$9', lambda v: v + 100),
+    # the scalar on the left; a scalar which is an error value on either side: every element the array covers is
+    # that error, and the positions it does not cover are #N/A like for any other array
+    'scalar-plus': ('=$J$9+{src}', lambda v: 100 + v),
+    'error-times': ('=$J$8*{src}', lambda v: '#DIV/0!'),
+    'times-error': ('={src}*$J$8', lambda v: '#DIV/0!'),
     # the result is a reference (an array like any other once it is shown in cells)
     'reference': ('=OFFSET(A1,0,0,{rh},{rw})', lambda v: v),
 }
@@ -289,7 +294,7 @@ def one_fit(ctx, rh, rw, th, tw, kind, fill, offset, iterative=False):
     template, f = FIT_KINDS[kind]
     # (the member cells of an array formula refer to their target by sheet name: also names that need quotes)
     sheet = ('Sheet1', 'Sheet1', 'My Sheet', 'P&L 2024')[(rh + rw + th + tw + offset) % 4]
-    cells = {'J9': 100}
+    cells = {'J9': 100, 'J8': '#DIV/0!'}
     for i in range(rh):
         for j in range(rw):
             cells[wb.coord(1 + j, 1 + i)] = src_vals[i][j]
@@ -532,10 +537,10 @@ def run(ctx):
         if not ctx.mine(n):
             continue
         ctx.count('shape_pairs')
-        reps = 2 if ctx.quick else 12
+        reps = 3 if ctx.quick else 16
         for r in range(reps):
             kind = kinds[(n + r) % len(kinds)]
-            fill = 'float' if kind in ('abs', 'plus-scalar') or r % 2 else 'int'
+            fill = 'float' if kind in ('abs', 'plus-scalar', 'scalar-plus') or r % 2 else 'int'
             one_fit(ctx, rh, rw, th, tw, kind, fill, offset=(n * 7 + r * 3) % 16, iterative=(n + r) % 5 == 0)
     # ---- (1) lifting: deterministic sweep over shapes x broadcast partners
     m = 0
